@@ -5,9 +5,9 @@
 (* variable, value) is the `last` of some enabled specification step.         *)
 EXTENDS TraceBatch
 CONSTANTS Script, NEvents, Faulty, Stoppers, Fixes, AnyTimeout
-VARIABLES rs, rep, runflag, fin, flag, next, res, startsOK, segments, lateStop, staleStart, wrote, afterStop, ctimedout, wtimedout, last, pc, i, ok
+VARIABLES rs, rep, runflag, fin, flag, next, cur, endsOK, res, startsOK, segments, lateStop, staleStart, lateEnd, staleEnd, wrote, afterStop, ctimedout, wtimedout, last, pc, i, ok
 ST == INSTANCE SimThreads
-stvars == <<rs, rep, runflag, fin, flag, next, res, startsOK, segments, lateStop, staleStart, wrote, afterStop, ctimedout, wtimedout, last, pc, i, ok>>
+stvars == <<rs, rep, runflag, fin, flag, next, cur, endsOK, res, startsOK, segments, lateStop, staleStart, lateEnd, staleEnd, wrote, afterStop, ctimedout, wtimedout, last, pc, i, ok>>
 TraceInit == BatchInit /\ ST!Init
 Step == /\ Live /\ Consume /\ ST!Next
         /\ last'.t = Ev.t /\ last'.k = Ev.k /\ last'.v = Ev.v /\ last'.x = Ev.x
@@ -18,4 +18,5 @@ InvEndedFinalK == ST!EndedFinalK
 InvThreadGoneK == ST!ThreadGoneK
 InvRefused == ST!RefusedWroteNothing
 InvStopEffectiveK == ST!StopEffectiveK
+InvEndRepEffectiveK == ST!EndRepEffectiveK
 =============================================================================
